@@ -102,6 +102,7 @@ type Gen struct {
 	allowedTargets map[string][]frameTarget
 	lemmasUsed map[string]bool
 	declared map[string]bool
+	sinces   [][2]string
 	localRefs map[string]string // ref term of a non-escaping local alloc (and its sub-objects) -> component prefix
 	ghostTypes map[string]types.Type
 	localTypes map[string]types.Type // $local:<name> -> Go type
@@ -423,7 +424,7 @@ func (g *Gen) ghostSort(name string) string {
 		return s
 	}
 	switch {
-	case strings.HasPrefix(name, "$called:"), strings.HasPrefix(name, "$ok:"), strings.HasPrefix(name, "$defer:"):
+	case strings.HasPrefix(name, "$called:"), strings.HasPrefix(name, "$ok:"), strings.HasPrefix(name, "$defer:"), strings.HasPrefix(name, "$stored:"):
 		g.ghostSorts[name] = "Bool"
 		return "Bool"
 	}
